@@ -1166,3 +1166,9 @@ Theorem dot_forward_value :
     (forall b : list nat, validIdx batch b -> elt r b = VjpLinalgP.dotF n (elt av) (elt ov) b).
 Proof. exact @VjpLinalgP.dot_fwd. Qed.
 Print Assumptions dot_forward_value.
+
+From Qeep Require Proofs.ConstsP Model.Consts.
+Theorem library_equality_threshold_at_most_1e_240 :
+  ConstsP.dec_le Consts.c_eq_threshold (1, -240)%Z = true.
+Proof. exact ConstsP.threshold_at_most_1e_240. Qed.
+Print Assumptions library_equality_threshold_at_most_1e_240.
